@@ -297,12 +297,14 @@ func (c *GroupCoordinator) Heartbeat(ctx context.Context, req *kmsg.HeartbeatReq
 		c.mu.Unlock()
 		return mkResp(protocol.ILLEGAL_GENERATION)
 	}
-	if state.state != groupStateStable {
-		c.mu.Unlock()
-		return mkResp(protocol.REBALANCE_IN_PROGRESS)
-	}
+	// A heartbeat from a member of the current generation keeps its session
+	// alive also while the group is rebalancing; only the reply code differs.
 	member.lastHeartbeat = time.Now()
-	resp := mkResp(protocol.NONE)
+	code := int16(protocol.NONE)
+	if state.state != groupStateStable {
+		code = protocol.REBALANCE_IN_PROGRESS
+	}
+	resp := mkResp(code)
 	if err := c.persistGroupLocked(ctx, req.Group, state); err != nil {
 		resp.ErrorCode = protocol.UNKNOWN_SERVER_ERROR
 	}
